@@ -195,6 +195,25 @@ def _check_compute_error(ctx, cef):
               f"(eps = {eps})", "clamped RMS of (y11 - y12) / clamp(rtol max(|y11|,|y12|) + atol)")
 
 
+def _new_and_factor(fn, ret):
+    """(name of the returned step size, name of the factor) if `ret` is `(X, ...)` with the single assignment
+    X = prev_step_size * F or F * prev_step_size for a local name F; else (None, None)."""
+    if not (isinstance(ret, ast.Tuple) and len(ret.elts) == 2 and isinstance(ret.elts[0], ast.Name)):
+        return None, None
+    x = ret.elts[0].id
+    asg = [s for s in ast.walk(fn.node) if isinstance(s, ast.Assign) and len(s.targets) == 1
+           and isinstance(s.targets[0], ast.Name) and s.targets[0].id == x]
+    if len(asg) != 1 or not (isinstance(asg[0].value, ast.BinOp) and isinstance(asg[0].value.op, ast.Mult)):
+        return x, None
+    l, r = asg[0].value.left, asg[0].value.right
+    names = [n.id if isinstance(n, ast.Name) else None for n in (l, r)]
+    if "prev_step_size" in names and None not in names:
+        other = names[1] if names[0] == "prev_step_size" else names[0]
+        if other != "prev_step_size":
+            return x, other
+    return x, None
+
+
 def r14_3(ctx):
     rep, model = ctx.rep, ctx.model
     rep.rule("R14.3", "interval analysis of update_step_size: a rejected step strictly shrinks (factor in [facmin, "
@@ -243,12 +262,18 @@ def r14_3(ctx):
         r = ev.block(body)
         if r is None or r[0] != "return":
             raise AnalysisError("update_step_size: could not reach its return", where=astq.loc(fn))
-        if "factor" not in r[2]:
-            raise AnalysisError("update_step_size: no variable `factor` at the return", where=astq.loc(fn))
         ret = r[1]
-        ok_ret = isinstance(ret, ast.Tuple) and len(ret.elts) == 2 and \
-            ast.unparse(ret.elts[0]) in ("new_step_size",) and "new_step_size" in r[2]
-        results[case] = (r[2]["factor"], r[2].get("new_step_size"), ok_ret)
+        # the returned step size is a local `new = prev_step_size * factor` (either order): `factor` is whatever local
+        # multiplies the previous step size -- identified by structure, not by name
+        new_name, fac_name = _new_and_factor(fn, ret)
+        if fac_name is None:
+            rep.fail("R14.3", astq.loc(fn), f"{fn.key}::R14.3::new-step",
+                     "the returned step size is not `prev_step_size * factor`")
+            ctx.floor("R14.3", 1)
+            return
+        if fac_name not in r[2]:
+            raise AnalysisError(f"update_step_size: no range for the factor `{fac_name}` at the return", where=astq.loc(fn))
+        results[case] = (r[2][fac_name], r[2].get(new_name), True)
     f_rej, new_rej, ok1 = results["rejected (err > 1)"]
     f_acc, new_acc, ok2 = results["accepted (err <= 1)"]
     rep.check(f_rej.positive() and f_rej.lt(1.0), "R14.3", astq.loc(fn), f"{fn.key}::R14.3::reject-shrinks",
@@ -259,8 +284,8 @@ def r14_3(ctx):
               f"on err <= 1 the step-size factor ranges over {f_acc}: must be >= 1 and bounded",
               f"factor in {f_acc}", facts={"factor": repr(f_acc)})
     # new_step_size = prev_step_size * factor
-    ns = [s for s in fn.node.body if isinstance(s, ast.Assign) and ast.unparse(s.targets[0]) == "new_step_size"]
-    ok = len(ns) == 1 and ast.unparse(ns[0].value) in ("prev_step_size * factor", "factor * prev_step_size") and ok1 and ok2
+    rets = [n for n in ast.walk(fn.node) if isinstance(n, ast.Return) and n.value is not None]
+    ok = len(rets) == 1 and _new_and_factor(fn, rets[0].value)[1] is not None and ok1 and ok2
     rep.check(ok, "R14.3", astq.loc(fn), f"{fn.key}::R14.3::new-step",
               "the returned step size is not `prev_step_size * factor`", "new = prev * factor, returned first")
     # the call passes the current step size as prev_step_size and the estimate as error_estimate
